@@ -59,7 +59,70 @@ func init() {
 			}
 			return true
 		})
+		// the clean-up SetupNewUser runs BEFORE it takes the passwd lock: tryCleanUser and everything it
+		// calls inside package ptt (checkAndExpireAccount, killUser, ...), in source order, depth first.
+		// Which of these calls write the id index (SetUserID, the uhash chain functions) or a .PASSWDS record?
+		decls := map[string]*ast.FuncDecl{}
+		for _, f := range p.Syntax {
+			for _, d := range f.Decls {
+				if fd, ok := d.(*ast.FuncDecl); ok && fd.Recv == nil && fd.Body != nil {
+					decls[fd.Name.Name] = fd
+				}
+			}
+		}
+		if decls["tryCleanUser"] == nil {
+			fatal("ptt.tryCleanUser not found")
+		}
+		var clean []string
+		seen := map[string]bool{}
+		var walk func(name string)
+		walk = func(name string) {
+			if seen[name] {
+				return
+			}
+			seen[name] = true
+			ast.Inspect(decls[name].Body, func(n ast.Node) bool {
+				call, ok := n.(*ast.CallExpr)
+				if !ok {
+					return true
+				}
+				callee, local := "", false
+				switch f := call.Fun.(type) {
+				case *ast.SelectorExpr:
+					callee = f.Sel.Name
+				case *ast.Ident:
+					callee = f.Name
+					local = decls[callee] != nil
+				}
+				switch callee {
+				case "SetUserID", "AddToUHash", "RemoveFromUHash", "LoadUHash":
+					clean = append(clean, "setUserID")
+				case "passwdSyncUpdate", "PasswdUpdate":
+					clean = append(clean, "writeRecord")
+				case "touchFresh":
+					clean = append(clean, "touchFresh")
+				case "killUser":
+					clean = append(clean, "killUser")
+				case "PasswdLock":
+					clean = append(clean, "lock")
+				}
+				if local && callee != "passwdSyncUpdate" {
+					walk(callee)
+				}
+				return true
+			})
+		}
+		walk("tryCleanUser")
 		lf := newLean("Reg")
+		lf.raw("/-- index / record writes reachable from ptt.tryCleanUser (which SetupNewUser calls before PasswdLock), depth first in source order. -/\n")
+		lf.raw("def cleanUserCalls : List String := [")
+		for i, c := range clean {
+			if i > 0 {
+				lf.raw(", ")
+			}
+			lf.raw("\"" + c + "\"")
+		}
+		lf.raw("]\n")
 		lf.raw("/-- calls of ptt.SetupNewUser in source order (a deferred unlock appears where it is registered). -/\n")
 		lf.raw("def setupNewUserCalls : List String := [")
 		for i, c := range calls {
